@@ -149,8 +149,11 @@ func Build(s Spec) *bsctypes.Header {
 		MixDigest:   make([]byte, 32),
 		Nonce:       make([]byte, 8),
 	}
+	if s.Number%2 == 1 {
+		h.Nonce[7] = 7 // Parlia does not constrain the nonce: odd blocks carry a non-zero one (it is part of the block hash)
+	}
 	if s.Parent != nil {
-		ph := s.Parent.Hash()
+		ph := indepHash(s.Parent)
 		h.ParentHash = ph[:]
 	} else {
 		h.ParentHash = make([]byte, 32)
@@ -160,6 +163,16 @@ func Build(s Spec) *bsctypes.Header {
 	case "":
 	case "parent-hash":
 		h.ParentHash = bytes.Repeat([]byte{7}, 32)
+	case "parent-hash-of-nonce-less-sibling":
+		// the hash of the block that differs from the parent only in its nonce (another block); when the parent's nonce is
+		// zero anyway this would be the parent itself, so an arbitrary hash is used instead
+		h.ParentHash = bytes.Repeat([]byte{9}, 32)
+		if s.Parent != nil && !bytes.Equal(s.Parent.Nonce, make([]byte, 8)) {
+			sib := *s.Parent
+			sib.Nonce = make([]byte, 8)
+			ph := indepHash(&sib)
+			h.ParentHash = ph[:]
+		}
 	case "number-same":
 		h.Height.RevisionHeight = s.Number - 1
 	case "number+2":
@@ -214,7 +227,21 @@ func Build(s Spec) *bsctypes.Header {
 	return h
 }
 
-var structuralMutations = []string{"parent-hash", "number-same", "number+2", "uncle-hash", "mix-digest", "gas-limit-jump-up", "gas-limit-jump-down",
+// indepHash is the block hash computed by go-ethereum's own header type (not by the client under test).
+func indepHash(h *bsctypes.Header) common.Hash {
+	var nonce ethtypes.BlockNonce
+	copy(nonce[:], h.Nonce)
+	var bloom ethtypes.Bloom
+	copy(bloom[:], h.Bloom)
+	return (&ethtypes.Header{
+		ParentHash: common.BytesToHash(h.ParentHash), UncleHash: common.BytesToHash(h.UncleHash), Coinbase: common.BytesToAddress(h.Coinbase),
+		Root: common.BytesToHash(h.Root), TxHash: common.BytesToHash(h.TxHash), ReceiptHash: common.BytesToHash(h.ReceiptHash), Bloom: bloom,
+		Difficulty: new(big.Int).SetBytes(h.Difficulty), Number: new(big.Int).SetUint64(h.Height.RevisionHeight), GasLimit: h.GasLimit, GasUsed: h.GasUsed,
+		Time: h.Time, Extra: h.Extra, MixDigest: common.BytesToHash(h.MixDigest), Nonce: nonce,
+	}).Hash()
+}
+
+var structuralMutations = []string{"parent-hash", "parent-hash-of-nonce-less-sibling", "number-same", "number+2", "uncle-hash", "mix-digest", "gas-limit-jump-up", "gas-limit-jump-down",
 	"gas-used-above-limit", "extra-short-vanity", "validator-bytes-wrong-place-or-length", "coinbase-not-sealer", "corrupt-signature", "difficulty-zero", "seal-other-chain-id"}
 
 // Bounds of one configuration.
